@@ -333,6 +333,9 @@ class SymWorld(WorldBase):
     def leq(self, a, b):
         return a <= b
 
+    def scoped(self, cond):
+        return self.eng.scoped(cond)
+
     def alg(self, **kw):
         from . import nra
         return nra.SymAlg(**kw)
